@@ -59,7 +59,10 @@ Failures(T) ==
   \cup Fail("RepetitionsUseIndependentlyDrawnGames",
             T.continuous = 1 => \A i, j \in 1..Len(T.reps) : i # j => T.reps[i].hid_tok # T.reps[j].hid_tok)
   \cup Fail("SameHiddenGamesForEveryNumberOfProcesses", T.games_same_p1 # 0)
-  \cup Fail("SameResultForEveryNumberOfProcesses", T.same_p1 # 0))
+  \cup Fail("SameResultForEveryNumberOfProcesses", T.via = "api" => T.same_p1 # 0)
+  \* the `solve` command (argument parser -> ModelInstance -> solve_func -> save -> data.json) hands on exactly what evaluate() returns
+  \* for the configuration given on the command line
+  \cup Fail("SolveCommandSavesWhatEvaluateReturns", T.via = "cli" => T.same_p1 = 1))
 
 TraceInit == tid \in 1..Len(Traces) /\ l = 0
 TraceNext == /\ l = 0 /\ l' = 1 /\ tid' = tid
